@@ -585,8 +585,12 @@ func doCheck(bin, prop string, pc propCfg, tier string, seed uint64, scratch str
 		ev["trouble"] = trouble
 	}
 	eb, _ := json.MarshalIndent(ev, "", " ")
-	_ = os.MkdirAll(filepath.Join(verifRoot, "evidence"), 0755)
-	if err := os.WriteFile(filepath.Join(verifRoot, "evidence", prop+".json"), eb, 0644); err != nil {
+	evDir := filepath.Join(verifRoot, "evidence")
+	if d := os.Getenv("VERIF_EVIDENCE_DIR"); d != "" {
+		evDir = d // runs against a deliberately broken tree (seeded changes) must not overwrite the evidence
+	}
+	_ = os.MkdirAll(evDir, 0755)
+	if err := os.WriteFile(filepath.Join(evDir, prop+".json"), eb, 0644); err != nil {
 		die2("write evidence: %v", err)
 	}
 	fmt.Printf("%s %s: runs=%d nontrivial=%d distinct_shapes=%d states=%d steps=%d sim_s=%.1f wall_s=%.1f new_violations=%d known=%d\n",
